@@ -133,6 +133,18 @@ def const_branch_filter(rd):
         if b.kind == 'branch' and b.attrs['test'].kind == 'test':
             t = b.attrs['test']
             e = t.ast
+            neg = False
+            while isinstance(e, _ast.UnaryOp) and isinstance(e.op, _ast.Not):
+                e = e.operand
+                neg = not neg
+            if isinstance(e, _ast.Name):
+                defs = rd.at(t, e.id)
+                if defs and all(isinstance(d.value, _ast.Constant) and d.kind == 'assign' for d in defs):
+                    truths = {bool(d.value.value) != neg for d in defs}
+                    if len(truths) == 1 and b.attrs['polarity'] != next(iter(truths)):
+                        return False
+                return True
+            e = t.ast
             if isinstance(e, _ast.Compare) and len(e.ops) == 1 and isinstance(e.left, _ast.Name) and isinstance(e.comparators[0], _ast.Constant) \
                     and isinstance(e.ops[0], (_ast.Eq, _ast.NotEq, _ast.Is, _ast.IsNot)):
                 defs = rd.at(t, e.left.id)
